@@ -207,7 +207,7 @@ def main():
         setup_cmd='python3 py/check.py --setup',
         hooks=dict(guard='verif', enable='go build -tags verif (harness/build.sh)',
                    baseline_off_cmd='cd /repo && go test -mod=mod -json -vet=off -count=1 -timeout 25m ./...',
-                   source_commits=['e355874'], add_only=True),
+                   source_commits=['e355874', '9eabaaf'], add_only=True),
         engines=[dict(name='coq-proof+correspondence', path='py/check.py',
                       serves_properties=sorted(CHECKS),
                       kind_free_text='Coq 8.16 development under coq/ (model + theorems), extracted to OCaml (ocaml/), compared with the Go '
